@@ -54,20 +54,35 @@ func (f *Prog) Call(s *slip.Scope, args slip.List, depth int) slip.Object {
 	ns.TagBody = true
 	d2 := depth + 1
 	processBinding(s, ns, args[0], d2)
+	return progBody(ns, args, d2)
+}
+
+// progBody evaluates the body of a prog or prog*, a tagbody inside a block
+// named nil: tags are not evaluated, a go reaches a tag before or after it, a
+// go to a tag of an enclosing tagbody and a return-from to an enclosing
+// block are handed on.
+func progBody(ns *slip.Scope, args slip.List, depth int) slip.Object {
 	for i := 1; i < len(args); i++ {
-		switch tr := slip.EvalArg(ns, args, i, d2).(type) {
+		if isTag(args[i]) {
+			continue
+		}
+		switch tr := slip.EvalArg(ns, args, i, depth).(type) {
 		case *slip.ReturnResult:
 			if tr.Tag == nil {
 				return tr.Result
 			}
-			if s.Block {
-				return tr
-			}
+			return tr
 		case *GoTo:
-			for i++; i < len(args); i++ {
-				if args[i] == tr.Tag {
+			found := false
+			for j := 1; j < len(args); j++ {
+				if isTag(args[j]) && args[j] == tr.Tag {
+					i = j
+					found = true
 					break
 				}
+			}
+			if !found {
+				return tr
 			}
 		}
 	}
